@@ -37,6 +37,10 @@ var isReservedName = map[string]bool{
 	"switch":     true,
 	"try":        true,
 	"while":      true,
+	// methods that every generated record class defines
+	"eq":      true,
+	"ne":      true,
+	"isequal": true,
 }
 
 var TypeSyntaxWriter dsl.TypeSyntaxWriter[string] = func(self dsl.TypeSyntaxWriter[string], t dsl.Node, contextNamespace string) string {
